@@ -68,6 +68,9 @@ type c16plan struct {
 	Keys    int
 	PerCli  int
 	YieldN  int
+	// Password: the server requires a password and every client authenticates before its first command
+	// (connections that START unauthorized are serialized like any other once they are in)
+	Password bool
 }
 
 func c16get(idx int) c16plan {
@@ -86,6 +89,7 @@ func c16get(idx int) c16plan {
 	p.PerCli = (total + p.Clients - 1) / p.Clients
 	p.YieldN = 1 + r.Intn(6)
 	p.TCP = idx%8 == 5
+	p.Password = idx%5 == 3
 	return p
 }
 
@@ -130,6 +134,10 @@ func c16run(idx int) run.Result {
 		st := refstore.New()
 		st.Yield = yield
 		srv = newServer(st)
+	}
+	if p.Password {
+		srv.SetRequirePass(c08pass)
+		res.Classes = append(res.Classes, "password-required")
 	}
 	port := 0
 	if p.TCP {
@@ -176,6 +184,27 @@ func c16run(idx int) run.Result {
 				wait = double.Start(srv, conn, nil)
 			}
 			pos := 0
+			if p.Password {
+				okAuth := false
+				if p.TCP {
+					tcp.c.SetDeadline(time.Now().Add(serveWait))
+					if v, err := tcp.do("AUTH", c08pass); err == nil && resp.Equal(v, resp.Status("OK")) {
+						okAuth = true
+					}
+				} else {
+					conn.Feed(resp.Encode(resp.Cmd("AUTH", c08pass)))
+					if conn.WaitIdle(serveWait) == nil {
+						out := conn.OutFrom(pos)
+						pos += len(out)
+						okAuth = string(out) == "+OK\r\n"
+					}
+				}
+				if !okAuth {
+					mu.Lock()
+					timedOut = true
+					mu.Unlock()
+				}
+			}
 			<-start
 			for n := 0; n < p.PerCli; n++ {
 				op := rng.Pick(r, prof.Ops)
@@ -308,7 +337,7 @@ func init() {
 	run.Register(&run.Prop{
 		ID: "C16", Level: "exploration",
 		Rule: func(tier string) string {
-			return "case = one short concurrent history: 2..8 client goroutines, each with its own connection (served through hook H1; every 8th history uses real TCP connections to a started listener instead), issue 8..24 operations (<=12 with MSETNX) over 1..3 keys drawn from one of 9 operation profiles (incr, incr-only, append, setnx-del, setnx-only, getset, msetnx, set-get, mixed) against the bundled example store or the reference store, alternating; the stores are wrapped so that the handler yields (seeded Gosched bursts) before every Get/Set/Del primitive, i.e. between the framework's critical sections. Call and return events are stamped at the client boundary with one atomic logical clock (call before the request is fed, return after the complete reply frame). Written values are unique (client+counter), APPEND pieces are unique fixed-width tokens, DECRBY uses a distinct power of two per client. porcupine v1.3.0 decides linearizability against a sequential model of GET/SET/SETNX/GETSET/INCR/DECRBY/APPEND/DEL/MSETNX, partitioned by key unless MSETNX is present (60 s timeout => inconclusive). Evidence: histories per profile, illegal/unknown counts, overlapping op pairs and the distinct overlap shapes actually observed; a run without overlaps fails itself. Children are built with the race detector. non-trivial = at least one pair of operations on the same key overlapped"
+			return "case = one short concurrent history: 2..8 client goroutines, each with its own connection (served through hook H1; every 8th history uses real TCP connections to a started listener instead; in every fifth history the server requires a password and each client authenticates first), issue 8..24 operations (<=12 with MSETNX) over 1..3 keys drawn from one of 9 operation profiles (incr, incr-only, append, setnx-del, setnx-only, getset, msetnx, set-get, mixed) against the bundled example store or the reference store, alternating; the stores are wrapped so that the handler yields (seeded Gosched bursts) before every Get/Set/Del primitive, i.e. between the framework's critical sections. Call and return events are stamped at the client boundary with one atomic logical clock (call before the request is fed, return after the complete reply frame). Written values are unique (client+counter), APPEND pieces are unique fixed-width tokens, DECRBY uses a distinct power of two per client. porcupine v1.3.0 decides linearizability against a sequential model of GET/SET/SETNX/GETSET/INCR/DECRBY/APPEND/DEL/MSETNX, partitioned by key unless MSETNX is present (60 s timeout => inconclusive). Evidence: histories per profile, illegal/unknown counts, overlapping op pairs and the distinct overlap shapes actually observed; a run without overlaps fails itself. Children are built with the race detector. non-trivial = at least one pair of operations on the same key overlapped"
 		},
 		Assumptions: []string{"porcupine v1.3.0 and the 9-operation sequential model are the reference", "an operation without a reply makes its history inconclusive"},
 		Setup: func(tier string, seed uint64) int {
